@@ -103,6 +103,9 @@ func c04Classify(st *engine.Step) (pid, class string) {
 			valid = sec != nil && !sec.Dead && sec.Owner == x
 		} else {
 			valid = totpValidFor(pre, r.TOTPSecretKey, tag.Secret)
+			if st.S.Cfg.OneTimeUser && r.TOTPLastCode != "" && r.TOTPLastCode == tag.Secret {
+				valid = false // replay protection: the code that was accepted last is rejected, like any wrong code
+			}
 		}
 		if valid {
 			return x, "complete"
@@ -264,6 +267,9 @@ func c04Cover(st *engine.Step) []string {
 		return nil
 	}
 	c := []string{class + ":" + st.Obs.Req.Tag.Kind}
+	if st.Obs.Req.Tag.Note == "totp:repeated" {
+		c = append(c, "repeated-code")
+	}
 	m := c04Get(st.Post.Truth, pid)
 	pm := c04Get(st.Pre.Truth, pid)
 	if m.lockedUntil.After(st.Post.Now) && !pm.lockedUntil.After(st.Pre.Now) {
@@ -295,10 +301,18 @@ func c04Scenarios(tier string) []engine.Scenario {
 			grid = append(grid, c04cfg{a, 2 * time.Second, 3 * time.Second}, c04cfg{a, 3 * time.Second, 2 * time.Second})
 		}
 	}
-	for _, cfg := range grid {
+	for gi, cfg := range grid {
 		cfg := cfg
-		for _, who := range []string{"otp", "totp"} {
+		whos := []string{"otp", "totp"}
+		if gi == 1 || tier == "thorough" && gi < 4 {
+			whos = append(whos, "totp-onetime") // users with TOTP replay protection: a repeated code is a counted failure too
+		}
+		for _, who := range whos {
 			who := who
+			onetime := who == "totp-onetime"
+			if onetime {
+				who = "totp"
+			}
 			depth := 5
 			if tier == "thorough" {
 				depth = 6
@@ -317,9 +331,9 @@ func c04Scenarios(tier string) []engine.Scenario {
 				mods = []string{"auth", "lock", "totp2fa", "recovery", "logout"}
 			}
 			sc := engine.Scenario{
-				Name:  fmt.Sprintf("%s-after%d-w%s-d%s", who, cfg.after, cfg.w, cfg.d),
+				Name:  fmt.Sprintf("%s-after%d-w%s-d%s", map[bool]string{false: who, true: "totp-onetime"}[onetime], cfg.after, cfg.w, cfg.d),
 				Depth: depth, Sat: sat, MaxStates: 400000,
-				Cfg: world.Config{Modules: mods, LockAfter: cfg.after, LockWindow: cfg.w, LockDuration: cfg.d},
+				Cfg: world.Config{Modules: mods, LockAfter: cfg.after, LockWindow: cfg.w, LockDuration: cfg.d, OneTimeUser: onetime},
 				Init: func(s *world.Stack) *world.World {
 					w := world.NewWorld("B1", "B2")
 					if who == "otp" {
@@ -372,6 +386,13 @@ func c04Scenarios(tier string) []engine.Scenario {
 						r.Tag.Note = "totp:now"
 						return r
 					}, ""))
+					if last := w.DB.Users[U1].TOTPLastCode; onetime && last != "" && failuresAllowed {
+						a = append(a, flows.A("totp-validate(B1,totp:repeated)", func(s *world.Stack, _ *world.World) world.Req {
+							r := flows.TOTPValidate(s, b, last, "")
+							r.Tag.Note = "totp:repeated"
+							return r
+						}, ""))
+					}
 					if failuresAllowed {
 						a = append(a, flows.A("totp-validate(B1,code:000000)", func(s *world.Stack, _ *world.World) world.Req {
 							r := flows.TOTPValidate(s, b, "000000", "")
@@ -389,6 +410,9 @@ func c04Scenarios(tier string) []engine.Scenario {
 			if who == "totp" {
 				sc.Need = []string{"failure:login", "first-factor:login", "failure:totp_validate", "complete:totp_validate", "became-locked"}
 			}
+			if onetime {
+				sc.Need = append(sc.Need, "repeated-code")
+			}
 			out = append(out, sc)
 		}
 	}
@@ -398,8 +422,8 @@ func c04Scenarios(tier string) []engine.Scenario {
 func init() {
 	engine.Register(&engine.Property{
 		ID: "C04", Level: "model_checking",
-		Rule:        "E1 with a reference automaton (count, last attempt, locked-until) advanced on the same history and compared with storage and with a probe login after every step; clock alphabet {1s, W-1s, W+1s, D-1s, D+1s}; small-duration configurations run to a fixpoint (all histories of any length); classes = attempt classes and lock transitions hit",
+		Rule:        "E1 with a reference automaton (count, last attempt, locked-until) advanced on the same history and compared with storage and with a probe login after every step; clock alphabet {1s, W-1s, W+1s, D-1s, D+1s}; accounts with OTPs, with TOTP, and with TOTP replay protection; small-duration configurations run to a fixpoint (all histories of any length); classes = attempt classes and lock transitions hit",
 		Units:       func(tier string) []engine.Unit { return e1Units(c04Scenarios(tier)) },
-		Assumptions: []string{"lock expiry at exactly LockDuration is not asserted either way", "at most LockAfter+2 counted failures in a row (bounds the counter)", "a repeated TOTP code (replay protection) is outside this alphabet"},
+		Assumptions: []string{"lock expiry at exactly LockDuration is not asserted either way", "at most LockAfter+2 counted failures in a row (bounds the counter)", "TOTP replay protection (UserOneTime) is exercised in dedicated configurations: the code accepted last, sent again, is a counted failure"},
 	})
 }
